@@ -104,3 +104,16 @@ Theorem C18_scanner_legacy_refuted :
   parse_rfc3339 (s "2020-01-01T00:00:00Z") <> None.
 Proof. exact Legacy.C18_scanner_legacy_refuted. Qed.
 Print Assumptions C18_scanner_legacy_refuted.
+
+(* ---- the scanner of the model is the generic scanner instantiated with the tables the translator reads from
+   ldmodel/parse_time.go on every run (field order, terminators, lengths, ranges, fraction limit) ---- *)
+From LD Require Import TimeTables.
+From LDGen Require Import Tables.
+Theorem C18_scanner_uses_the_source_table : forall x,
+  parse_rfc3339 x = parse_rfc3339_tab time_fields_src time_fraction_max_src x.
+Proof. exact scanner_uses_the_source_table. Qed.
+Print Assumptions C18_scanner_uses_the_source_table.
+Theorem C18_terminators_match_source : forall name cs c,
+  In (name, cs) time_terminators_src -> term_of name c = in_set c cs.
+Proof. exact terminators_match_source. Qed.
+Print Assumptions C18_terminators_match_source.
